@@ -286,7 +286,7 @@ func runCond(args []string) []string {
 		tid, _ := strconv.Atoi(p[0][1:])
 		cl, cc := connect(y)
 		conns = append(conns, cc)
-		before := shim.VerifWaiters(byte(code))
+		before := waiters(shim, byte(code))
 		go func() {
 			if err := cl.Wait(byte(code)); err == nil {
 				released <- tid
@@ -301,12 +301,16 @@ func runCond(args []string) []string {
 		}
 		// registration is observed, not slept for
 		ok := false
-		for i := 0; i < 2000; i++ {
-			if shim.VerifWaiters(byte(code)) > before {
+		for i := 0; i < 2000 && hooked; i++ {
+			if waiters(shim, byte(code)) > before {
 				ok = true
 				break
 			}
 			time.Sleep(time.Millisecond)
+		}
+		if !hooked {
+			time.Sleep(40 * time.Millisecond)
+			ok = true
 		}
 		waitingOn[tid] = code
 		got := collect(0)
